@@ -47,6 +47,10 @@ CHECKS = {
  "C10": dict(
     text="Exhaustive enumeration of the full configuration product (5832 configurations: fee state {0,<1000,>1000} of 2 real pairs x {0,500,5000} of 2 real vaults x take rate {inactive,0,1e-18,1%,50%,1-1e-18} x routes {both,none,A only,B only} x fault {none, routed pair paused, routed hop exceeds max spread}); each configuration is produced by real swaps/loans on a fully deployed hub (factories, router, collector, lair, distributor) and followed by one real NewEpoch: ledgers cleared, collector assets swapped-through-route-or-untouched, DAO == floor(rate*balance) and recorded per epoch, distributor delta == new epoch total - rollover, conservation of the distribution asset, ForwardFees only by the distributor, failing hop reverts everything.",
     note="One NewEpoch per configuration; protocol fee 1%, no burn; the collector does not enumerate three-asset pools (stated scope).", tech="exhaustive configuration/fault enumeration on the implementation (explicit-state, one transaction deep)", ref="DESIGN.md §4 C10"),
+ "C03": dict(
+    text="(a) exhaustive grid on the real stableswap compute_swap and LP-mint formula (hook): whole-token reserve magnitudes incl. 1:1..1:1e9 imbalances x offers {1 unit,1e-3,1,10%,100%,10x} x amp {1..1e6} x decimals {(6,6),(6,8),(8,6),(6,18),(18,6),(4,5)} x fee triples, compared with D and y solved independently by bisection on decimal-normalised reserves: pool keeps the curve reserve up to 2+2*slope base units, proceeds <= ask reserve, proceeds monotone in the offer, fees floor(share*gross), mint <= invariant growth. (b) BFS histories (depth 3/4) of swap/provide/withdraw/collect/fee changes on the real deployed stableswap pair with decimals (6,6) and (6,18): normalised D per LP never falls, mint bound, deposit->withdraw probe.",
+    note="Oracles apply while each reserve >= one whole token (the property's precondition). LP-value dust: D known to +-2 base units, else 4+4*max dD/dx_i. Known finding: LP mint over raw amounts with unequal decimals.",
+    tech="exhaustive input-grid enumeration + explicit-state model checking of the implementation (BFS)", ref="DESIGN.md §4 C03"),
 }
 NOT_BUILT = "check not built yet in this round (planned, see DESIGN.md)"
 props = [json.loads(l) for l in open('/verif/properties.jsonl')]
